@@ -85,8 +85,15 @@ func runMinimal(c *core.Ctx) error {
 					continue
 				}
 				h := &hist{t: t}
+				seed := c.Rng("minimal", cas).Int63()
+				// a long section of records: as long as the instance stays below ~1500 leaves (255, 64, 24 elements)
+				for _, shorter := range []int{64, 24} {
+					if n > 2 && len(walkObject((&instance{pt: pt, seed: seed, depth: 1, nonil: true, min: d.planFor(key, n)}).build())) > 1500 {
+						n = shorter
+					}
+				}
 				t.Reset("minimal", cas, core.Ev{"type": pt.name, "section": key, "n": n})
-				m, msg, err := makeMessageOf(&instance{pt: pt, seed: c.Rng("minimal", cas).Int63(), depth: 1, min: d.planFor(key, n)}, nil)
+				m, msg, err := makeMessageOf(&instance{pt: pt, seed: seed, depth: 1, min: d.planFor(key, n)}, nil)
 				if err != nil {
 					return err
 				}
@@ -132,6 +139,29 @@ func runMinimal(c *core.Ctx) error {
 				}
 				if b != nil && boxFinish(h.emit, b) {
 					c.Count(fmt.Sprintf("min:%s%s:%d", b.kind, b.name, n), true)
+				}
+				h.end()
+			}
+		}
+	}
+	// every section of every record type: a record list of ONE record whose section holds 1, 2, 255 minimal elements
+	for ki, rk := range recKinds {
+		recType := &ptype{name: rk.rec, mk: rk.mkRec}
+		d := sectionsOf(recType)
+		for si, key := range d.seen {
+			for ni, n := range minCounts {
+				cas := 950000 + ki*1000 + si*4 + ni
+				if !c.Want("minimal", cas) {
+					continue
+				}
+				h := &hist{t: t}
+				t.Reset("minimal", cas, core.Ev{"pack": rk.name, "section": key, "n": n})
+				b, err := recsBuild(h.emit, rk, cas, c.Rng("minimal", cas), buildOpts{nFixed: 1, minimal: true, plan: d.planFor(key, n)})
+				if err != nil {
+					return err
+				}
+				if b != nil && boxFinish(h.emit, b) {
+					c.Count(fmt.Sprintf("min:%s:%s:%d", rk.name, key, n), true)
 				}
 				h.end()
 			}
@@ -658,10 +688,13 @@ func runLife(c *core.Ctx) error {
 
 // holdPacks: k pack objects are all written before the first of them is read back; the reader is
 // given the very slice the writer returned, as it is by then.
-func holdPacks(c *core.Ctx, h *hist, r *rand.Rand) error {
+func holdPacks(c *core.Ctx, h *hist, r *rand.Rand, sameType int) error {
 	k := 2 + r.Intn(2)
-	same := r.Intn(2) == 0
+	same := sameType >= 0
 	pt0 := ptypes[r.Intn(len(ptypes))]
+	if same {
+		pt0 = ptypes[sameType%len(ptypes)]
+	}
 	type live struct {
 		pt  *ptype
 		m   *message
@@ -741,7 +774,8 @@ func holdPacks(c *core.Ctx, h *hist, r *rand.Rand) error {
 
 // holdBoxes: k containers are all built before the first of them is sent and unpacked; the records
 // blob a container holds is looked at again after the later ones were built.
-func holdBoxes(c *core.Ctx, h *hist, r *rand.Rand, cas int) error {
+// sameKind >= 0: every container is of that kind (0..2: zip, log-sink zip, composite; 3..: the record-list packs)
+func holdBoxes(c *core.Ctx, h *hist, r *rand.Rand, cas int, sameKind int) error {
 	k := 2 + r.Intn(2)
 	kinds := []string{"zip", "lszip", "zip", "lszip", "composite", "records"}
 	boxes := make([]*built, k)
@@ -760,12 +794,24 @@ func holdBoxes(c *core.Ctx, h *hist, r *rand.Rand, cas int) error {
 	}
 	for o := 0; o < k; o++ {
 		kind := kinds[r.Intn(len(kinds))]
+		rk := recKinds[r.Intn(len(recKinds))]
+		if sameKind >= 0 {
+			sk := sameKind % (3 + len(recKinds))
+			if sk < 3 {
+				kind = []string{"zip", "lszip", "composite"}[sk]
+			} else {
+				kind, rk = "records", recKinds[sk-3]
+			}
+		}
 		use(o)
-		opts := buildOpts{nFixed: -1, base: base, compress: r.Intn(4) > 0}
+		opts := buildOpts{nFixed: -1, base: base, compress: r.Intn(4) > 0, nonEmpty: r.Intn(8) > 0}
+		if sameKind >= 0 {
+			opts.how = rk.setters[(sameKind/(3+len(recKinds)))%len(rk.setters)] // the same setter for all of them
+		}
 		var b *built
 		var err error
 		if kind == "records" {
-			b, err = recsBuild(count, recKinds[r.Intn(len(recKinds))], cas+1, r, opts)
+			b, err = recsBuild(count, rk, cas+1, r, opts)
 		} else {
 			b, err = packBuild(count, kind, r, opts)
 		}
@@ -820,12 +866,22 @@ func runHold(c *core.Ctx) error {
 		r := c.Rng("hold", cas)
 		h := &hist{t: t}
 		var err error
+		// every other history of a form holds objects of ONE kind / type (what is shared between calls is most likely
+		// shared between calls on the same kind of object): the container kinds in turn, the pack types in turn
+		// (ten per quick run, others with every seed)
+		j, same := cas/2, -1
+		if j%2 == 0 {
+			same = j / 2
+		}
 		if cas%2 == 0 {
-			t.Reset("hold", cas, core.Ev{"form": "boxes"})
-			err = holdBoxes(c, h, r, cas)
+			t.Reset("hold", cas, core.Ev{"form": "boxes", "same": same})
+			err = holdBoxes(c, h, r, cas, same)
 		} else {
-			t.Reset("hold", cas, core.Ev{"form": "packs"})
-			err = holdPacks(c, h, r)
+			if same >= 0 {
+				same += int(c.Seed%1000) * 10
+			}
+			t.Reset("hold", cas, core.Ev{"form": "packs", "same": same})
+			err = holdPacks(c, h, r, same)
 		}
 		if err != nil {
 			return err
